@@ -109,6 +109,7 @@ Definition enc_core (r : out rv * list kwargs) : val :=
 
 Definition run_core (kind : Z) (i : input) : val := enc_core (core (hfun kind) comps i).
 Definition run_core_out (kind : Z) (i : input) : val := enc_out (fst (core (hfun kind) comps i)).
+Definition run_checked_core (kind : Z) (i : input) : val := enc_core (checked_core (hfun kind) comps i).
 
 (* value at an index vector of a nested output, encoded (for examples and cases) *)
 Definition nest_at_val (o : out rv) (idx : list nat) : option val :=
